@@ -1,6 +1,7 @@
 (* C18 entry points for the extracted driver: sx -> sx *)
 From Coq Require Import List Bool Arith ZArith QArith Qcanon.
 From PV Require Import Base.Sx Base.Graph C18.Model.
+From PV Require C08.Model.
 Import ListNotations.
 Local Open Scope nat_scope.
 
@@ -139,6 +140,22 @@ Definition run_c18_factorizes (s : sx) : sx :=
       match dec_jpd sv sc sr, dec_edges se with
       | Some j, Some es => sx_ok (of_bool (factorizes j es))
       | _, _ => bad_request
+      end
+  | _ => bad_request
+  end.
+
+(* graph-edit sessions: [nodes edges start Z] -> active trail nodes of C08's model (proved there to be the
+   path definition of d-connection) on the CURRENT graph; error 1 = node not in graph *)
+Definition run_c18_atn (s : sx) : sx :=
+  match s with
+  | SL [sn; se; ss; sz] =>
+      match sx_list sx_nat sn, dec_edges se, sx_nat ss, sx_list sx_nat sz with
+      | Some ns, Some es, Some x, Some Z =>
+          let g := {| nodes := ns; edges := es |} in
+          if memn x ns && all_in Z ns
+          then sx_ok (of_list of_nat (C08.Model.active_trail_nodes g x Z))
+          else sx_err 1
+      | _, _, _, _ => bad_request
       end
   | _ => bad_request
   end.
